@@ -24,6 +24,7 @@ import (
 //	sr <prim> [arg]         serialization.ReadX: "<val> rem=<n>" or "err:<class> rem=<n>"
 //	rt <prim> <val> <suffix>   property op: both encoders agree, both decoders return the value and consume exactly the
 //	                        encoding when followed by <suffix>, every examined truncation is eof / error: "<hex> ok"
+//	holdsink <prim> <val> ...  every value written into its own sink / serialization.ToArray, results kept and re-checked at the end
 //	sbig <n>:<fill> ...     large var-bytes fields read back-to-back (streaming), all values compared after the last read
 //	check                   the same for the concatenation of everything written in this case: "ok n=<fields> len=<L>"
 //	safe <add|sub|mul> x y  "<result> <overflow>"
@@ -477,6 +478,55 @@ func (f *codecFam) Exec(r *hx.Run, op []string) string {
 			r.Viol("C01:stream-length-beyond-data-accepted:"+op[1], fmt.Sprintf("serialization.Read %s: declared length %d exceeds the %d remaining bytes but %s is returned", op[1], declared, remBefore, trunc(v, 60)))
 		}
 		return fmt.Sprintf("%s rem=%d", v, f.sbuf.Len())
+	case "holdsink":
+		// holdsink <prim> <val> <prim> <val> ...: each value is written into its own fresh ZeroCopySink and with the streaming
+		// writer; the slices returned by Bytes() / serialization.ToArray are kept while the others are produced, then re-checked
+		if len(op) < 3 || len(op)%2 != 1 {
+			return "bad-op"
+		}
+		type pv struct{ p, v string }
+		var pvs []pv
+		for i := 1; i+1 < len(op); i += 2 {
+			pvs = append(pvs, pv{op[i], op[i+1]})
+		}
+		var held, want [][]byte
+		var names []string
+		for _, x := range pvs {
+			sink := common.NewZeroCopySink(nil)
+			if _, ok := sinkWrite(sink, x.p, x.v); !ok {
+				return "bad-op"
+			}
+			held = append(held, sink.Bytes())
+			want = append(want, append([]byte{}, sink.Bytes()...))
+			names = append(names, "ZeroCopySink.Bytes:"+x.p)
+			if x.p == "hash" {
+				var h common.Uint256
+				copy(h[:], hx.UnHex(x.v))
+				held = append(held, serialization.ToArray(&h))
+				want = append(want, append([]byte{}, h[:]...))
+				names = append(names, "serialization.ToArray:hash")
+			}
+			if x.p == "addr" {
+				var a common.Address
+				copy(a[:], hx.UnHex(x.v))
+				held = append(held, serialization.ToArray(&a))
+				want = append(want, append([]byte{}, a[:]...))
+				names = append(names, "serialization.ToArray:addr")
+			}
+		}
+		for i := len(pvs) - 1; i >= 0; i-- { // more sinks and arrays while the first results are held
+			sink := common.NewZeroCopySink(nil)
+			sinkWrite(sink, pvs[i].p, pvs[i].v)
+			var h common.Uint256
+			serialization.ToArray(&h)
+		}
+		for i := range held {
+			if !bytes.Equal(held[i], want[i]) {
+				r.Viol("C01:encoded-bytes-changed-later:"+names[i], fmt.Sprintf("the slice returned by %s (%x) reads %x after later values were encoded", names[i], want[i], held[i]))
+				return "FAIL:changed"
+			}
+		}
+		return fmt.Sprintf("ok k=%d", len(pvs))
 	case "sbig":
 		// several large var-bytes fields written and read back-to-back with the streaming codec; every returned value is
 		// kept and compared with what was written only after all reads are done
@@ -910,6 +960,16 @@ func (f *codecFam) Gen(r *hx.Run) {
 		}
 		r.Do("sbig " + strings.Join(toks, " "))
 		r.Nontrivial(fmt.Sprintf("sbig/%v", sizes))
+	}
+	// 4b'. encoders hand out byte slices: held while other values are encoded, then re-checked
+	for i := 0; i < r.Pick(60, 3000); i++ {
+		newCase("holdsink")
+		var toks []string
+		for j := 0; j < 2+r.Rng.Intn(4); j++ {
+			p := []string{"varbytes", "string", "hash", "addr", "u64", "varuint", "bytes"}[r.Rng.Intn(7)]
+			toks = append(toks, p, genVal(r, p))
+		}
+		r.Do("holdsink " + strings.Join(toks, " "))
 	}
 	// 4c. declared lengths that wrap the uint64 offset arithmetic: at a non-zero offset `off`, a length n >= 2^64 - off
 	for i := 0; i < r.Pick(120, 5000); i++ {
